@@ -284,7 +284,13 @@ func TestVerifPmm(t *testing.T) {
 						if uint64(len(held)) >= usableCount {
 							mon(3, "c03:alloc-beyond-usable", "AllocFrame succeeded (frame %#x) although all %d usable frames are held", uint64(f), usableCount)
 						}
-						held[uint64(f)] = true
+						if !mi.frameAvailable(uint64(f)) || mi.frameInKernel(uint64(f)) || earlySet[uint64(f)] || held[uint64(f)] {
+							// not one of the usable frames: it does not count towards "exactly the usable
+							// frames can be allocated" and is not added to the ownership table
+							mon(3, "c03:alloc-of-unusable-frame", "AllocFrame returned frame %#x which is not a usable free frame (%d of %d usable frames held)", uint64(f), len(held), usableCount)
+						} else {
+							held[uint64(f)] = true
+						}
 					}
 				}
 			case 1, 2:
